@@ -123,6 +123,21 @@ theorem c13_eq_hash (a b : Addr) (h : Address.eq a b = true) : pyHash a = pyHash
 theorem c13_copy_eq (a : Addr) : Address.eq (ofAddr a) a = true ∧ Address.eq (ofTuple a.wc a.hash) a = true := by
   simp [Address.eq, ofAddr, ofTuple]
 
+/-- RE-RENDERING (history independence of `to_str`).  Parse ANY of the 8 friendly texts of an address and render the
+resulting object - which now carries the parsed flags `b₁, t₁` - in ANY of the 8 variants: the text is the one the
+tuple-built address gives (the object's own flags never leak into `to_str`), and parsing it yields exactly the flags
+requested the second time. -/
+theorem c13_rerender (a : Addr) (hw : Bytes.WF a.hash) (hlen : a.hash.length = 32)
+    (hwc : -128 ≤ a.wc ∧ a.wc ≤ 127) (url₁ b₁ t₁ url₂ b₂ t₂ : Bool) :
+    ∃ s₁ a₁ s₂, toStr a true url₁ b₁ t₁ = some s₁ ∧ parse s₁ = some a₁ ∧
+      toStr a₁ true url₂ b₂ t₂ = some s₂ ∧ toStr (ofTuple a.wc a.hash) true url₂ b₂ t₂ = some s₂ ∧
+      parse s₂ = some { wc := a.wc, hash := a.hash, bounceable := b₂, testOnly := t₂ } := by
+  obtain ⟨s₁, h₁, _, hp₁⟩ := c13_friendly_roundtrip a hw hlen hwc url₁ b₁ t₁
+  obtain ⟨s₂, h₂, _, hp₂⟩ := c13_friendly_roundtrip
+    { wc := a.wc, hash := a.hash, bounceable := b₁, testOnly := t₁ } hw hlen hwc url₂ b₂ t₂
+  refine ⟨s₁, _, s₂, h₁, hp₁, h₂, ?_, hp₂⟩
+  simpa [toStr, ofTuple] using h₂
+
 /-! ### non-vacuity: a concrete address and its texts -/
 
 /-- the hypotheses of the round-trip / substitution theorems are met by a concrete non-trivial address … -/
